@@ -55,6 +55,17 @@ impl<'a> GeneratorState<'a> {
         Ok(())
     }
 
+    // The deferred side effects of a returned expression. The caller relies on N and Z describing
+    // the value returned in A: they are set again if the side effects have changed them
+    fn purge_before_return(&mut self, returns_value: bool, pos: usize) -> Result<(), Error> {
+        let effects = !self.deferred_plusplus.is_empty() || self.saved_y;
+        self.purge_deferred_plusplus_and_savey()?;
+        if effects && returns_value {
+            self.asm(CMP, &ExprType::Immediate(0), pos, false)?;
+        }
+        Ok(())
+    }
+
     fn generate_included_source_code_line(&mut self, loc: usize) -> Option<&'a str> {
         let mut start_of_line = self.last_included_char.clone();
         let mut start_of_line_pos = self.last_included_position;
@@ -1103,7 +1114,7 @@ impl<'a> GeneratorState<'a> {
             }
             // The post-increments of the returned expression (and a Y borrowed by it) take effect before
             // control leaves the function: the end of the statement is never reached
-            self.purge_deferred_plusplus_and_savey()?;
+            self.purge_before_return(f.return_type.is_some(), pos)?;
             if f.inline {
                 self.asm(JMP, &ExprType::Label(".endof".into()), 0, false)?;
             } else {
